@@ -102,27 +102,18 @@ Theorem html_escape_roundtrip :
 Proof. exact html_escape_roundtrip_proof. Qed.
 Print Assumptions html_escape_roundtrip.
 
-(* xml.EscapeAttrVal: always quoted with the cheaper quote (double on a tie); for NUL-free values the
-   in-tag xml lexer model reads it back as one attribute whose value, unquoted and decoded, is the
-   decoding of the original value WITH literal TAB/LF/CR REPLACED BY SPACES (the lexer overwrites them
-   inside quotes), hence of the original value itself when it contains none of them.
-   Missing for the clause as written: values containing TAB/LF/CR — see xml_escape_roundtrip_ws_refuted. *)
-Theorem xml_escape_roundtrip_partial :
-  forall tbl v, esc_tbl 34 ent_dq tbl -> esc_tbl 39 ent_sq tbl -> ~ In 0 v ->
-    let out := quoted (xml_quote v) v in
-    let val := quoted (xml_quote v) (map xnorm v) in
-    xml_escape_attr_val v = Ok out /\
-    xml_tag_tokens (attr_x out ++ [62]) = [TAttr (attr_x val) [120] (Some val); TClose [62]] /\
-    len val = len out /\
-    decode tbl (unquote val) = decode tbl (map xnorm v) /\
-    (map xnorm v = v -> val = out /\ decode tbl (unquote val) = decode tbl v).
+(* xml.EscapeAttrVal (since /repo a851768, which writes TAB/LF/CR as &#9; &#10; &#13;): for every NUL-free value
+   it never panics, returns the value between the cheaper quote (double on a tie) with that quote and TAB/LF/CR
+   written as references, never writes more than the size it reserves (xml_reserved), and placed after `<a x=`
+   and before `>` is read back by the in-tag xml lexer model as exactly one attribute whose value is the escaped
+   value; unquoted and decoded it gives the decoding of the original value, TAB/LF/CR included.  For every
+   decoder table that reads the five references as written (std_refs is one: std_refs_esc_dq/sq/tab/lf/cr). *)
+Theorem xml_escape_roundtrip :
+  forall tbl v, esc_tbl 34 ent_dq tbl -> esc_tbl 39 ent_sq tbl ->
+    esc_tbl 9 ent_tab tbl -> esc_tbl 10 ent_lf tbl -> esc_tbl 13 ent_cr tbl -> ~ In 0 v ->
+    let out := xquoted (xml_quote v) v in
+    xml_escape_attr_val v = Ok out /\ len out <= xml_reserved v /\
+    xml_tag_tokens (attr_x out ++ [62]) = [TAttr (attr_x out) [120] (Some out); TClose [62]] /\
+    decode tbl (unquote out) = decode tbl v.
 Proof. exact xml_escape_roundtrip_proof. Qed.
-Print Assumptions xml_escape_roundtrip_partial.
-
-(* The clause as written is FALSE for xml: the value TAB is written literally between double quotes and read back as a space. *)
-Theorem xml_escape_roundtrip_ws_refuted :
-  exists v out val data, ~ In 0 v /\ xml_escape_attr_val v = Ok out /\
-    xml_tag_tokens (attr_x out ++ [62]) = [TAttr data [120] (Some val); TClose [62]] /\
-    decode std_refs (unquote val) <> decode std_refs v.
-Proof. exact xml_escape_roundtrip_ws_refuted_proof. Qed.
-Print Assumptions xml_escape_roundtrip_ws_refuted.
+Print Assumptions xml_escape_roundtrip.
